@@ -804,6 +804,12 @@ pub fn cmd_show(prop: &Property, scn_name: &str, idx: u64) -> i32 {
         Some(s) => s,
         None => harness_exit(&format!("unknown scenario {scn_name}")),
     };
+    // debugging aid for the determinism protocol: run earlier indices on this thread first
+    if let Some(w) = std::env::var("VERIF_WARMUP").ok().and_then(|s| s.parse::<u64>().ok()) {
+        for j in idx.saturating_sub(w)..idx {
+            let _ = run_one(scn, j, Sim::generate(seed_for(bseed, prop.id, scn.name, j), false));
+        }
+    }
     let seed = seed_for(bseed, prop.id, scn.name, idx);
     match run_one(scn, idx, Sim::generate(seed, true)) {
         RunEnd::Ok(rep) => {
